@@ -125,6 +125,9 @@ def observe(case):
     script = ce.Script([step_of(a, req_kind, k) for k, a in enumerate(case['script'])])
     tlog = []
     tracers = [RecTracer(i, tlog) for i in range(case['tracers'])]
+    # the `tracers` parameter is typed Iterable: a list, a tuple or a one-shot iterator / generator
+    tracers = {'list': lambda: tracers, 'tuple': lambda: tuple(tracers), 'iter': lambda: iter(tracers),
+               'gen': lambda: (t for t in list(tracers))}[case.get('tr_as', 'list')]()
     cl = ce.make_client(is_async, script, tracers=tracers, retry_strategy=strategy_obj(case['client'], case['jitter']))
     kwargs = {}
     if case['per'] != 'unset':
